@@ -28,7 +28,8 @@ pub fn def() -> CheckDef {
                seed-drawn data set in the negotiated transfer syntax (implicit/explicit LE, explicit BE, deflated, \
                encapsulated RLE/JPEG fragments), seed-drawn Affected SOP Instance UID text (plain, parent references, path \
                separators into an existing sub-directory, absolute paths, dot names, padded, long), data cut into one or many \
-               fragments (empty fragments, an empty last fragment alone in its own PDU, several PDVs per PDU). The seeded \
+               fragments (empty fragments, an empty last fragment alone in its own PDU, several PDVs per PDU); by the seed the \
+               requestor gives up after a non-final PDU of a store and releases or aborts there. The seeded \
                scheduler decides node interleaving, send sizes, delivery segmentation and receive sizes. Oracles: every path \
                the node asks the OS to create (interposed open) and every file found on the sandbox file system afterwards \
                lies directly inside the output directory; for every store acknowledged with success there is a file directly \
@@ -39,7 +40,7 @@ pub fn def() -> CheckDef {
         real: &["storescp: run_store_sync, run_store_async and their inner loops, App (clap) argument parsing", "ServerAssociation / AsyncServerAssociation establish, receive, send", "InMemDicomObject::read_dataset_with_ts, FileMetaTableBuilder, write_to_file (real file system in a per-worker sandbox)", "std and tokio TcpStream, mio, tokio current-thread runtime"],
         stub: &["TCP/IP (simulated queues)", "the requestor (scripted, independent encoders)", "the listener accept loop of main() (each run hands one accepted connection to the per-connection body)", "open() is observed (and refused below an unreachable prefix) but otherwise real"],
         assumptions: &["the harness links the tool sources with transfer-syntax-registry features deflate+native; the shipped default build registers fewer supported syntaxes", "command sets are sent in one fragment (the tool ignores split command fragments; the property quantifies over data fragments)", "no connection faults here (C30/C34 carry those)"],
-        required_probes: &["stored-ok", "uid-parent-ref", "uid-subdir", "uid-absolute", "uid-unreachable-absolute", "empty-last-fragment-own-pdu", "many-fragments", "ts-deflated", "ts-encapsulated", "ts-big-endian", "ts-implicit", "echo-interleaved", "several-pdvs-per-pdu", "release-answered", "aborted-by-peer"],
+        required_probes: &["stored-ok", "uid-parent-ref", "uid-subdir", "uid-absolute", "uid-unreachable-absolute", "empty-last-fragment-own-pdu", "many-fragments", "ts-deflated", "ts-encapsulated", "ts-big-endian", "ts-implicit", "echo-interleaved", "several-pdvs-per-pdu", "release-answered", "aborted-by-peer", "release-mid-dataset", "abort-mid-dataset"],
         net: true,
     }
 }
@@ -96,6 +97,8 @@ struct ReqResult {
     released: bool,
     release_sent: bool,
     aborted: bool,
+    /// stopped sending in the middle of a store's PDUs, then released / aborted
+    gave_up: bool,
     note: String,
     stores: Vec<Store>,
 }
@@ -260,6 +263,9 @@ fn run(cfgi: usize, w: &mut Tape, env: &EnvRef) -> RunResult {
     }
     let pick_seed = w.below(1 << 30) as u64;
     let end_with_abort = w.chance(1, 6);
+    // the requestor may give up in the middle of a data set (after at least one, but not the last, PDU of a store)
+    // and end the session there: (store slot, cut position seed)
+    let give_up: Option<(usize, u32)> = if w.chance(1, 6) { Some((w.below(nstores as u32) as usize, w.below(1 << 16))) } else { None };
     env.with(|e| {
         e.obs.note_with(|| {
             format!(
@@ -367,6 +373,19 @@ fn run(cfgi: usize, w: &mut Tape, env: &EnvRef) -> RunResult {
                 }
                 frags.extend(dimse::fragment(&mut ft, st.ctx, false, &st.data, max_frag, true));
                 let pdus = dimse::pack(&mut ft, &frags, max_pdu);
+                if let Some((slot, cut)) = give_up {
+                    if slot == k && pdus.len() >= 2 {
+                        let n = 1 + (cut as usize) % (pdus.len() - 1);
+                        for p in &pdus[..n] {
+                            if !raw_send_all(fd, p) {
+                                out.note = "send failed during a store".into();
+                                break 'stores;
+                            }
+                        }
+                        out.gave_up = true;
+                        break 'stores;
+                    }
+                }
                 out.stores.push(st.clone());
                 out.responses.push(None);
                 for p in &pdus {
@@ -566,12 +585,24 @@ fn run(cfgi: usize, w: &mut Tape, env: &EnvRef) -> RunResult {
     // ---- (3) the session ends by the protocol (C30's clause for the storescp loops)
     if r.release_sent {
         env.probe("release-answered");
-        check!(r.released, "release-answered", format!("c32:{}:release-not-answered", who), "the requestor's A-RELEASE-RQ after a clean session was not answered with A-RELEASE-RP");
+        if r.gave_up {
+            env.probe("release-mid-dataset");
+        }
+        check!(
+            r.released,
+            "release-answered",
+            format!("c32:{}:release-not-answered", who),
+            "the requestor's A-RELEASE-RQ {} was not answered with A-RELEASE-RP",
+            if r.gave_up { "in the middle of a data set (after a non-final fragment of a store)" } else { "after a clean session" }
+        );
         let (pdus, _) = wire_pdus(&end.eps[conn.a]);
         check!(matches!(pdus.last(), Some(Ok(RPdu::ReleaseRp))), "release-answered", format!("c32:{}:sends-after-release-rp", who), "storescp sent something after its A-RELEASE-RP");
     }
     if r.aborted {
         env.probe("aborted-by-peer");
+        if r.gave_up {
+            env.probe("abort-mid-dataset");
+        }
         let (pdus, _) = wire_pdus(&end.eps[conn.a]);
         let n_before = pdus.len();
         let _ = n_before;
